@@ -707,6 +707,13 @@ func genVP8LWH(rng *rand.Rand, w, h int) genStream {
 		// sparse group numbering: every group but 0 is moved beyond the number of pixels, so that more groups are
 		// declared (and described in the stream) than the picture has pixels; the ones in between are never used
 		shift := xs*h + rng.Intn(3)
+		if rng.Intn(2) == 0 {
+			// group indices that need the second byte of the 16-bit index field (red and green of the entropy image)
+			shift = 256*(1+rng.Intn(3)) - 1 + rng.Intn(3)
+			if shift < xs*h {
+				shift += 256 * ((xs*h)/256 + 1)
+			}
+		}
 		for i, g := range tileGroup {
 			if g > 0 {
 				tileGroup[i] = g + shift
